@@ -23,7 +23,7 @@ def confirm(pid, k, src=None):
     m = re.search(r"Copy to:\s*WORKTREE/(\S+)", head)
     rel = m.group(1)
     m = re.search(r"-run\s+(\S+)", head)
-    test = m.group(1)
+    test = m.group(1).strip("'\"")
     pkg = "./" + os.path.dirname(rel) + "/"
     mt = re.search(r"-tags\s+(\w+)", head)
     tags = ("-tags " + mt.group(1) + " ") if mt else ""
@@ -33,7 +33,7 @@ def confirm(pid, k, src=None):
     res = {"property": pid, "variant": k, "base": sh("git -C /repo rev-parse --short HEAD")[1].strip(), "commands": []}
     try:
         shutil.copy(demo, os.path.join(wt, rel))
-        cmd_demo = f"go test {tags}-vet=off -count=1 -run '^{test}$' {pkg}"
+        cmd_demo = f"go test {tags}-vet=off -count=1 -run '{test}' {pkg}"
         rc0, o0 = sh(cmd_demo, cwd=wt)
         res["demo_passes_without_change"] = rc0 == 0
         rc, o = sh(f"git apply {src}/patch.diff", cwd=wt)
